@@ -1187,10 +1187,14 @@ impl CraneliftCompiler {
                 | ebpf::JSLE_IMM32
                 | ebpf::JSLE_REG32
                 | ebpf::JSET_IMM32
-                | ebpf::JSET_REG32
-                | ebpf::EXIT
-                | ebpf::TAIL_CALL => {
+                | ebpf::JSET_REG32 => {
                     self.prepare_jump_blocks(bcx, insn_ptr, &insn);
+                }
+                ebpf::EXIT | ebpf::TAIL_CALL => {
+                    // Not a jump: the offset field is meaningless; only the next instruction starts a block.
+                    self.insn_blocks
+                        .entry(insn_ptr as u32 + 1)
+                        .or_insert_with(|| bcx.create_block());
                 }
                 _ => {}
             }
